@@ -5,6 +5,8 @@ package refcodec
 
 import (
 	"encoding/binary"
+	"encoding/hex"
+	"encoding/json"
 	"errors"
 	"fmt"
 	"sort"
@@ -365,7 +367,12 @@ func EncodeBody(m *Msg) []byte {
 		case U64:
 			w.u64(toU64(v))
 		case Perm32:
-			w.u32(toU64(v) & 0o7777)
+			if raw, ok := m.F[fd.Name+"#raw"]; ok {
+				// a raw peer may put anything in the upper bits
+				w.u32(toU64(raw))
+			} else {
+				w.u32(toU64(v) & 0o7777)
+			}
 		case Str:
 			s, _ := v.(string)
 			w.str(s)
@@ -718,4 +725,33 @@ func Errno(frame []byte) (uint32, bool) {
 		return binary.LittleEndian.Uint32(frame[7:]), true
 	}
 	return 0, false
+}
+
+// MarshalJSON writes a message losslessly as its frame (hex) plus a readable
+// rendering.
+func (m *Msg) MarshalJSON() ([]byte, error) {
+	return json.Marshal(struct {
+		Text  string `json:"text"`
+		Frame string `json:"frame"`
+	}{m.String(), hex.EncodeToString(Encode(m))})
+}
+
+// UnmarshalJSON reads the frame back.
+func (m *Msg) UnmarshalJSON(b []byte) error {
+	var v struct {
+		Frame string `json:"frame"`
+	}
+	if err := json.Unmarshal(b, &v); err != nil {
+		return err
+	}
+	raw, err := hex.DecodeString(v.Frame)
+	if err != nil {
+		return err
+	}
+	d, err := DecodePrefix(raw)
+	if err != nil {
+		return err
+	}
+	*m = *d
+	return nil
 }
